@@ -17,7 +17,7 @@ META = {
     'assumptions': ['the real athlon_score is the oracle for the two-sided condition, as the property relates the two functions',
                     'for targets <= 0 only the first clause and negative==zero are judged (scores are never negative)'],
 }
-UNKNOWN = [('M', 'XYZ'), ('F', '110H'), ('X', '100'), ('M', ''), ('F', 'DEC'), ('M', '4x100'), ('F', '1000')]
+UNKNOWN = [('M', 'SP6K'), ('F', 'JT600'), ('M', 'HT4K'), ('F', 'DT1K'), ('M', 'XYZ'), ('F', '110H'), ('X', '100'), ('M', ''), ('F', 'DEC'), ('M', '4x100'), ('F', '1000')]
 
 
 class Monitor(object):
@@ -163,7 +163,7 @@ def run_shard(ctx, spec):
     if spec['i'] == 0:
         # unknown pairs: every event (and the veterans' hurdles aliases) under a gender label that is neither M nor F, through
         # the inverse and - they must agree on what is unknown - the forward function
-        evs = sorted(set(e for _, e in mon.live)) + ['80H', '100H', '110H']
+        evs = sorted(set(e for _, e in mon.live)) + ['80H', '100H', '110H', 'SP4K', 'JT600', 'BT1K', 'ST5K', 'CT4K', 'DT1.5K', 'HT4K', 'WT9.08K']
         for g in ('X', '?', '', 'W', 'B', 'MF', 'Male', 'female', 'U', '0'):
             for e in evs:
                 attach.call(mon.perf, g, e, 700)
